@@ -238,15 +238,15 @@ Fixpoint strike (n : nat) (pre : list sc) (post oq : list sc) (cum last_pos htna
 
 Definition last_tsn (sq : list sc) (d : Z) : Z := match rev sq with c :: _ => c_tsn c | [] => d end.
 
-(* tsn_minus_one(_local_tsn): the last TSN ever assigned.  _local_tsn itself is not part of this
-   model; it is recovered from the queues (or, when both are empty, from the ack points). *)
+(* the highest TSN handed to the network or covered by a FORWARD-TSN: the tail of the sent queue,
+   or, when it is empty, the later of the two ack points *)
 Definition highest_assigned (s : tx) : Z :=
-  match rev (sentq s ++ outq s) with
+  match rev (sentq s) with
   | c :: _ => c_tsn c
   | [] => if uint32_gt (adv_ack s) (last_sacked s) then adv_ack s else last_sacked s
   end.
 
-(* a SACK older than the last one, or acknowledging TSNs never assigned, is ignored *)
+(* a SACK older than the last one, or acknowledging TSNs never sent, is ignored *)
 Definition sack_ignored (s : tx) (cum : Z) : bool :=
   uint32_gt (last_sacked s) cum || negb (uint32_gte (highest_assigned s) cum).
 
